@@ -10,6 +10,7 @@ import os
 from mon import refbufr as R
 from mon.compare import diff_message, opsig, jsonable
 from mon.gen import cases
+from mon import handover
 
 ID = 'C01'
 LEVEL = 'exploration'
@@ -108,6 +109,9 @@ def compare_case(ctx, decoder, msg, origin, name=None):
         sig = classify(msg, d, decoder)
         ctx.violate(sig, 'decoded %s differ from FM-94 reading at subset %s field %s: observed %r expected %r'
                     % (why, k, j, jsonable(obs), jsonable(exp)), spec, expected=exp, observed=obs)
+        return
+    # the values a decode returned stay what they are when the message object (and objects derived from it) is used further
+    handover.on_message(ctx, msg.bytes, spec, site=origin)
 
 
 def corpus_files():
@@ -185,6 +189,17 @@ def run(ctx):
             compare_case(ctx, decoder, msg, 'big', name)
             ctx.count('big_cases')
             ctx.add('shapes', name)
+    # compressed character columns stored with increments narrower than the field (a foreign but legal layout): the values are
+    # the stored octets, and they stay that after the object was rendered, subset and re-encoded (object histories)
+    B33, D33 = cases.tables(33)
+    for k, ids in enumerate(([1001, 1015, 12001], [1008, 1001, 1011, 1015], [208005, 1015, 208000, 1008, 205006, 1001])):
+        try:
+            msg = R.build_message(ids, B33, D33, R.Policy(ctx.rng, narrow_strings=1.0), 2 + (k + ctx.shard) % 3, True, 4 - (ctx.shard + k) % 3)
+        except R.Unsupported:
+            continue
+        if msg.feat.get('cs-narrow'):
+            ctx.count('narrow_character_increment_cases')
+        compare_case(ctx, decoder, msg, 'narrow-strings', 'narrow-character-increments')
     files = corpus_files()
     if ctx.quick:
         files = [f for f in files if os.sep + 'data' + os.sep in f]
@@ -192,7 +207,7 @@ def run(ctx):
     n = 0
     while n < QUOTA[ctx.tier] and ctx.more():
         n += 1
-        c = cases.random_case(ctx)
+        c = cases.random_case(ctx, narrow_strings=0.4)
         if c is None:
             continue
         if n % 5 == 0:
